@@ -1,9 +1,101 @@
 (* C16 — Bulk requirement and use setters produce exactly the requested set.
-   Property theorems only. *)
+   Property theorems only; proofs in Modfile/EditProofsExact.v (exact set) and
+   Modfile/EditProofsSort.v (block order).  Model: Modfile/EditModel.v, EditOps.v.
+
+   [abs f] (Modfile/EditSpec.v) is the content of the typed lists of f with cleared entries
+   dropped; [k_require (abs f)] are the (path, version, indirect) triples of File.Require.
+   That the typed lists are what the formatted file says is C15 (coherence). *)
+From Coq Require Import Sorted Permutation.
 From Verif.Base Require Import Bytes.
-From Verif.Modfile Require Import EditModel EditOps EditSpec EditProofsTyped.
+From Verif.Modfile Require Import EditModel EditOps EditSpec EditProofsTyped EditProofsSort EditProofsExact.
+
+(* SetRequire: whatever the file held before (duplicates, cleared entries, any block
+   structure), if the call does not panic the requirements are exactly the requested
+   list, also after Cleanup.  [distinct_paths]: the requested paths are non-empty and
+   pairwise different. *)
+Theorem C16_set_require_exact : forall f l f',
+  distinct_paths (map req_path l) = true ->
+  set_require f l = Some f' ->
+  Permutation (k_require (abs f')) l /\ Permutation (k_require (abs (cleanup f'))) l.
+Proof. exact set_require_exact. Qed.
+Print Assumptions C16_set_require_exact.
+
+Theorem C16_set_require_separate_exact : forall f l f',
+  distinct_paths (map req_path l) = true ->
+  set_require_separate_indirect f l = Some f' ->
+  Permutation (k_require (abs f')) l /\ Permutation (k_require (abs (cleanup f'))) l.
+Proof. exact set_require_separate_exact. Qed.
+Print Assumptions C16_set_require_separate_exact.
+
+(* SetUse: exactly the requested (directory, module path) pairs. *)
+Theorem C16_set_use_exact : forall f (l : list (str * str)) f',
+  distinct_paths (map fst l) = true ->
+  set_use f l = Some f' ->
+  Permutation (k_use (abs f')) l /\ Permutation (k_use (abs (w_cleanup f'))) l.
+Proof. exact set_use_exact. Qed.
+Print Assumptions C16_set_use_exact.
+
+(* hypotheses are satisfiable: a file with a duplicated requirement, one request *)
+Example C16_set_require_exact_nonvacuous :
+  let line (t : list str) := mkHL no_coms t false in
+  let f := mkEFile (mkSyn [line [B "require"; B "a.b/c"; B "v1.0.0"]; line [B "require"; B "a.b/c"; B "v1.1.0"]] 0 no_coms
+                          [SLine 0%nat; SLine 1%nat])
+                   None None None []
+                   [mkRequire (B "a.b/c") (B "v1.0.0") false (Some 0%nat); mkRequire (B "a.b/c") (B "v1.1.0") false (Some 1%nat)]
+                   [] [] [] [] [] in
+  exists f', set_require f [(B "a.b/c", B "v1.2.0", true)] = Some f'
+             /\ k_require (abs (cleanup f')) = [(B "a.b/c", B "v1.2.0", true)].
+Proof. vm_compute. eexists. split; reflexivity. Qed.
+
+(* After SortBlocks (hence after SetRequire, SetRequireSeparateIndirect, AddTool, SetUse,
+   which end with it) every block is in the order of the comparator SortBlocks selects
+   for it: no line is "less" than its predecessor.  [block_less f b] is lineExcludeLess for
+   exclude blocks when the go version is at least 1.21 (go/version language order),
+   lineRetractLess for retract blocks, lineLess otherwise. *)
+Theorem C16_blocks_sorted : forall f b,
+  In (SBlock b) (stmts (fsyn (sort_blocks f))) ->
+  Sorted (fun a c => block_less f b c a = false) (block_toks (fsyn (sort_blocks f)) b).
+Proof. exact blocks_sorted. Qed.
+Print Assumptions C16_blocks_sorted.
+
+Theorem C16_set_require_ends_with_sort : forall f l f',
+  set_require f l = Some f' -> exists g, f' = sort_blocks g.
+Proof. exact set_require_sorts. Qed.
+Print Assumptions C16_set_require_ends_with_sort.
+
+Theorem C16_set_require_separate_ends_with_sort : forall f l f',
+  set_require_separate_indirect f l = Some f' -> exists g, f' = sort_blocks g.
+Proof. exact set_require_separate_indirect_sorts. Qed.
+Print Assumptions C16_set_require_separate_ends_with_sort.
+
+(* The three comparators are asymmetric (the half of "strict weak order" that the
+   adjacent-order statement above needs). *)
+Theorem C16_comparators_asymmetric : forall a b,
+  (toks_less a b = true -> toks_less b a = false) /\
+  (exclude_less a b = true -> exclude_less b a = false) /\
+  (retract_less a b = true -> retract_less b a = false).
+Proof. intros a b. split; [apply toks_less_asym | split; [apply exclude_less_asym | apply retract_less_asym]]. Qed.
+Print Assumptions C16_comparators_asymmetric.
 
 (* Cleanup does not change the directives a file denotes. *)
 Theorem C16_cleanup_keeps_directives : forall f, abs (cleanup f) = abs f.
 Proof. exact cleanup_abs. Qed.
 Print Assumptions C16_cleanup_keeps_directives.
+
+(* NOT PROVED (validated by the correspondence run and the Go oracles only):
+
+   kept_comments_survive — proved in the stronger per-line form as C08_comments_kept_*:
+     SetRequire / SetRequireSeparateIndirect / SetUse may change the comments of the
+     require / use lines only; which change setIndirect makes is [set_indirect_line].
+
+   separate_indirect_blocks : if the only require statement of a cleaned file is one
+     uncommented line or block, after set_require_separate_indirect and cleanup no block
+     holds both direct and indirect requirements.  (oracle "separate-indirect-two-blocks")
+
+   need_order_irrelevant : the result of the bulk setters does not depend on the order in
+     which the remaining [need] entries are added.  The model adds them in key order; the
+     harness runs every sequence three times under Go's randomised map order and all
+     observables except the ORDER of File.Require / WorkFile.Use agree.
+
+   blocks stay sorted through Cleanup (needs transitivity of the comparators on the lines
+     of a block; asymmetry is proved above). *)
